@@ -252,3 +252,30 @@ def selections(text):
     return names, cfgs, {"attr_problems": attr_problems, "attrs_decl": attrs_decl,
                          "attr_uses": [(unq(n["name"]), a, v) for n in nodes for a, v in n["attrs"]],
                          "constraints": constraints}
+
+
+def structure(text):
+    """The feature tree the document declares (any size): ungrouped children are one-child relations
+    ([1,1], or [0,1] when marked '?'); a clafer with a group cardinality owns one relation with all its
+    children (xor=[1,1], or=[1,k], mux=[0,1], opt=[0,k], a..b)."""
+    root, nodes, attrs_decl, constraints = parse(text)
+
+    def feat(n):
+        f = {"name": unq(n["name"]), "rels": []}
+        kids = n["kids"]
+        if not kids:
+            return f
+        if n["group"] is None:
+            for k in kids:
+                f["rels"].append({"min": 0 if k["opt"] else 1, "max": 1, "children": [feat(k)]})
+            return f
+        g = n["group"]
+        if g in GROUPS:
+            lo, hi = GROUPS[g]
+        else:
+            lo, hi = g.split("..")
+            lo, hi = int(lo), (None if hi == "*" else int(hi))
+        hi = len(kids) if hi is None else hi
+        f["rels"].append({"min": lo, "max": hi, "children": [feat(k) for k in kids]})
+        return f
+    return {"root": feat(root), "ctcs": []}
